@@ -329,6 +329,25 @@ func Explicit(t *rapid.T, o DataOpts) *DataSpec {
 			rows = append(rows, model.Row{base + w[:k]: w[k:], base: "other"})
 		}
 	}
+	// a second column holding, row by row, the very same values as an existing
+	// one (two columns with the same set of values and the same bitmaps)
+	if len(cols) > 0 && len(cols) < 5 && rapid.IntRange(0, 14).Draw(t, "mirrorcol") == 0 {
+		src := cols[rapid.IntRange(0, len(cols)-1).Draw(t, "mirrorsrc")]
+		dst := src + "2"
+		if o.IdentCols {
+			dst = "m" + strings.Map(func(r rune) rune {
+				if r >= 'a' && r <= 'z' || r >= '0' && r <= '9' {
+					return r
+				}
+				return 'x'
+			}, strings.ToLower(src))
+		}
+		for _, r := range rows {
+			if v, ok := r[src]; ok {
+				r[dst] = v
+			}
+		}
+	}
 	// key-layout twins: the stored key of a pair is hash(column NUL value), the
 	// result-cache key of a comparison hash(8-byte length of column, column,
 	// value); for the column named "" the bytes of the first for the value
